@@ -22,7 +22,7 @@ deriving Repr, Inhabited, DecidableEq
 
 inductive Fail
   | panic (s : PanicSite)
-  | budget
+  | budget (bumps : Nat)
   | nonfinite
   | fuel (what : String)  -- a loop of the model ran out of fuel (= the Rust loop does not terminate)
 deriving Repr, Inhabited, DecidableEq
@@ -317,13 +317,13 @@ def sweepStep (ar : Arith) (cfg : Cfg) (op : Op) (rightbound sbMaxX : Rat) (st :
 
 /-- the `while` loop of `subdivide`, on fuel (`cfg.budget` + 1 pops) -/
 def sweepLoop (ar : Arith) (cfg : Cfg) (op : Op) (rightbound sbMaxX : Rat) : Nat → SwSt → Except Fail SwSt
-  | 0, _ => .error .budget
+  | 0, st => .error (.budget st.bumps)
   | fuel + 1, st =>
     match Heap.pop (evLe st.arena) st.heap with
     | none => .ok st
     | some (event, h) =>
       let st := { st with heap := h, popped := st.popped + 1 }
-      if st.popped > cfg.budget then .error .budget else
+      if st.popped > cfg.budget then .error (.budget st.bumps) else
       match sweepStep ar cfg op rightbound sbMaxX st event with
       | .error e => .error e
       | .ok (true, st) => .ok st
